@@ -397,7 +397,8 @@ func (m *Monitors) verifyReturned(c *Call) {
 				continue
 			}
 			isVoter := false
-			for _, s := range d.Latest.Servers {
+			for _, s := range append(append([]raft.Server{}, d.Latest.Servers...), m.verifyCfg[c.ID].Servers...) {
+				// (a voter of the configuration at the return of the call or of the one in force when it was issued)
 				if w.nodeByAddr(s.Address) == a.to && s.Suffrage == raft.Voter {
 					isVoter = true
 				}
